@@ -14,6 +14,7 @@ import (
 	"runtime"
 	"sort"
 	"strings"
+	"unsafe"
 )
 
 // Chooser is the tape interface the scheduler needs.
@@ -613,7 +614,7 @@ func Chose(ch Chooser, c int) {
 // ---- watched-field race monitor (FastTrack-style) ----
 
 type epoch struct {
-	tid  int
+	tid  int32
 	clk  uint32
 	site string
 }
@@ -621,42 +622,50 @@ type epoch struct {
 type shadow struct {
 	w     epoch
 	hasW  bool
-	reads map[int]epoch
+	reads []epoch // at most one per thread
 }
 
-// Watch records an access to a watched location.
+// Watch records an access to a watched location (FastTrack-style check against
+// the vector clocks maintained by the shims).
 func Watch[T any](p *T, write bool, site string) {
 	s := S
 	if s == nil || s.NoRace || p == nil {
 		return
 	}
-	addr := reflect.ValueOf(p).Pointer()
+	addr := uintptr(unsafe.Pointer(p))
 	t := s.cur
 	sh := s.shadow[addr]
 	if sh == nil {
-		sh = &shadow{reads: map[int]epoch{}}
+		sh = &shadow{}
 		s.shadow[addr] = sh
 	}
-	me := epoch{tid: t.id, clk: t.vc.get(t.id), site: site}
-	if sh.hasW && sh.w.tid != t.id && sh.w.clk > t.vc.get(sh.w.tid) {
+	tid := int32(t.id)
+	if sh.hasW && sh.w.tid != tid && sh.w.clk > t.vc.get(int(sh.w.tid)) {
 		kind := "read"
 		if write {
 			kind = "write"
 		}
-		s.race(fmt.Sprintf("%s at %s races with write at %s", kind, site, sh.w.site))
+		s.race(kind + " at " + site + " races with write at " + sh.w.site)
 	}
 	if write {
-		for tid, r := range sh.reads {
-			if tid != t.id && r.clk > t.vc.get(tid) {
-				s.race(fmt.Sprintf("write at %s races with read at %s", site, r.site))
+		for _, r := range sh.reads {
+			if r.tid != tid && r.clk > t.vc.get(int(r.tid)) {
+				s.race("write at " + site + " races with read at " + r.site)
 			}
 		}
-		sh.w = me
+		sh.w = epoch{tid: tid, clk: t.vc.get(t.id), site: site}
 		sh.hasW = true
-		sh.reads = map[int]epoch{}
-	} else {
-		sh.reads[t.id] = me
+		sh.reads = sh.reads[:0]
+		return
 	}
+	for i := range sh.reads {
+		if sh.reads[i].tid == tid {
+			sh.reads[i].clk = t.vc.get(t.id)
+			sh.reads[i].site = site
+			return
+		}
+	}
+	sh.reads = append(sh.reads, epoch{tid: tid, clk: t.vc.get(t.id), site: site})
 }
 
 func (s *Sched) race(msg string) {
